@@ -343,7 +343,8 @@ def step (s : St) (line : String) : St × String :=
       if !validCfg n t nv alg amts ver comp then ({ s with live := false, vals := [], ex := [] }, "err")
       else
         let m := (minorOf ver).getD 0
-        ({ n := n, t := t, nv := nv, amounts := amountsOf amts m comp, pregen := 7 ≤ m, live := true }, "ok")
+        ({ n := n, t := t, nv := nv, amounts := amountsOf amts m comp, pregen := 7 ≤ m, live := true,
+           ex := (List.range n).map fun _ => {} }, "ok")
     | _, _, _, _ => (s, "bad-op")
   | ["val", v, sks] =>
     if !s.live then (s, "bad-op") else
